@@ -169,4 +169,40 @@ example : tagRule (some ' ') "09 }}".toList = .tok .integer ['0'] "9 }}".toList 
     tagRule (some ' ') "1_ }}".toList = .tok .integer ['1'] "_ }}".toList ∧
     tagRule (some ' ') "1e5 }}".toList = .tok .float "1e5".toList " }}".toList := ⟨rfl, rfl, rfl⟩
 
+-- escape sequences: the decoder against the reference table ---------------------------------------------------------
+
+open JinjaV.Spec.PyLit (strValue StrErr) in
+/-- the model's result and the reference's result are the same value / both a syntax error / both a `\N{…}` decline -/
+def SameStringResult : Except DErr (List Nat) → Except StrErr (List Nat) → Prop
+  | .ok v, .ok w => v = w
+  | .error .syntax, .error .syntax => True
+  | .error .oom, .error .named => True
+  | _, _ => False
+
+/-- the full statement: `wrap`'s pipeline reads every body the way Python's escape table does -/
+def StringEscapeSpecStatement : Prop :=
+  ∀ body : List Nat, (∀ c ∈ body, c < 0x110000) →
+    SameStringResult (unescapeBody body) (JinjaV.Spec.PyLit.strValue (normNl body))
+
+/-- `string_escape_spec` outside the shape of finding F13: for every body of code points < 0x110000 in which, after
+    line-break normalisation, no escape-position backslash is directly followed by a non-ASCII code point,
+    `encode("ascii","backslashreplace").decode("unicode-escape")` yields exactly what the reference escape table yields —
+    the same value (unknown escapes kept, octal of 1–3 digits, `\x \u \U` of exact width, line continuation), a syntax
+    error exactly where the reference has one (truncated hex, code point above 0x10ffff, trailing backslash), and `\N`
+    declined on both sides.  PARTIAL with respect to `StringEscapeSpecStatement` only by the F13 exclusion, which is a
+    genuine defect of the code (`Findings/F13.lean` refutes the full statement in the model). -/
+theorem string_escape_spec_partial (body : List Nat) (hb : ∀ c ∈ body, c < 0x110000)
+    (hf : f13Free (normNl body) = true) :
+    SameStringResult (unescapeBody body) (JinjaV.Spec.PyLit.strValue (normNl body)) := by
+  have h := unescape_spec body hb hf
+  cases hu : unescapeBody body with
+  | ok v => rw [hu] at h; simp only [toSpec] at h; rw [← h]; rfl
+  | error e =>
+    rw [hu] at h
+    cases e <;> (simp only [toSpec] at h; rw [← h]; trivial)
+
+example : f13Free (normNl [97, 92, 120, 52, 49, 92, 122, 233, 92, 13, 10, 92, 55, 55, 55]) = true ∧
+    unescapeBody [97, 92, 120, 52, 49, 92, 122, 233, 92, 13, 10, 92, 55, 55, 55] = .ok [97, 65, 92, 122, 233, 511] ∧
+    f13Free [92, 233] = false := ⟨rfl, rfl, rfl⟩
+
 end JinjaV.C14
